@@ -7,12 +7,12 @@ import (
 	"bufio"
 	"encoding/hex"
 	"encoding/json"
-	"os"
 	"flag"
 	"fmt"
 	"math/rand"
 	"net/http"
 	"net/http/httptest"
+	"os"
 	"strings"
 
 	"github.com/volatiletech/authboss/v3"
